@@ -119,6 +119,23 @@ def run_shard(ctx):
             items.append(axis)
         for sc in AXIS_SCALES:          # the rotation does not depend on the length of the axis
             items.append(tuple(s * q * sc for s, q in zip(p, (0.7, 1.3, 2.1))))
+    # axes tilted by a tiny angle away from each coordinate direction (the alignment angles are ill-conditioned there)
+    for ax in range(3):
+        for sgn in (1.0, -1.0):
+            for eps in (1e-9, 1e-7, 1e-6, 1e-5, 1e-4, 5e-4, 1e-3, 1e-2):
+                for other in range(3):
+                    if other == ax:
+                        continue
+                    for s2 in (1.0, -1.0):
+                        for length in (1.0, 2.3):
+                            a = [0.0, 0.0, 0.0]
+                            a[ax] = sgn * length
+                            a[other] = s2 * eps * length
+                            items.append(tuple(a))
+                            third = 3 - ax - other
+                            b = list(a)
+                            b[third] = eps * length * 0.5
+                            items.append(tuple(b))
     items = sorted(set(items))
 
     def vectors(axis):
